@@ -351,6 +351,7 @@ func (d *DataChannel) handleOpen(dc *datachannel.DataChannel, isRemote, isAlread
 	bufferedAmountLowThreshold := d.bufferedAmountLowThreshold
 	onBufferedAmountLow := d.onBufferedAmountLow
 	d.mu.Unlock()
+	verifYield("dc.open.gap")
 	d.setReadyState(DataChannelStateOpen)
 
 	// Fire the OnOpen handler immediately not using pion/datachannel
@@ -382,6 +383,7 @@ func (d *DataChannel) handleOpen(dc *datachannel.DataChannel, isRemote, isAlread
 
 	if !d.api.settingEngine.detach.DataChannels {
 		d.readLoopActive = make(chan struct{})
+		verifYield("!spawn")
 		go d.readLoop()
 	}
 }
@@ -410,6 +412,7 @@ func (d *DataChannel) onError(err error) {
 }
 
 func (d *DataChannel) readLoop() {
+	defer verifYield("!exit")
 	defer func() {
 		d.mu.Lock()
 		readLoopActive := d.readLoopActive
@@ -419,6 +422,7 @@ func (d *DataChannel) readLoop() {
 
 	buffer := make([]byte, sctpMaxMessageSizeUnsetValue)
 	for {
+		verifYield("dc.read.wait")
 		n, isString, err := d.dataChannel.ReadDataChannel(buffer)
 		if err != nil {
 			if errors.Is(err, io.ErrShortBuffer) {
@@ -434,6 +438,7 @@ func (d *DataChannel) readLoop() {
 				)
 			}
 
+			verifYield("dc.read.err")
 			d.setReadyState(DataChannelStateClosed)
 			if !errors.Is(err, io.EOF) {
 				d.onError(err)
@@ -566,7 +571,9 @@ func (d *DataChannel) close(shouldGracefullyClose bool) error {
 	readLoopActive := d.readLoopActive
 	if shouldGracefullyClose && readLoopActive != nil {
 		defer func() {
+			verifYield("dc.close.wait")
 			<-readLoopActive
+			verifYield("dc.close.woke")
 		}()
 	}
 	haveSctpTransport := d.dataChannel != nil
@@ -575,6 +582,7 @@ func (d *DataChannel) close(shouldGracefullyClose bool) error {
 	if d.ReadyState() == DataChannelStateClosed {
 		return nil
 	}
+	verifYield("dc.close.gap")
 
 	d.setReadyState(DataChannelStateClosing)
 	if !haveSctpTransport {
@@ -784,9 +792,13 @@ func (d *DataChannel) setReadyState(r DataChannelState) {
 	for {
 		current := d.readyState.Load()
 		if state, ok := current.(DataChannelState); ok && state >= r {
+			verifYield("!dc.stored")
+
 			return
 		}
 		if d.readyState.CompareAndSwap(current, r) {
+			verifYield("!dc.stored")
+
 			return
 		}
 	}
